@@ -15,7 +15,8 @@
    c02.junesc <hex>                              JSON string unescape
    c02.jenc json|jsonl <esc> <pretty> <LF|CRLF|CR> <nprof> <lit=canon…> <ncols> <nrows> <hdr…> <cells…>
    c02.jdec json|jsonl <nprof> <lit=canon…> <hex>
-       number profile: hex(literal)=hex(FormatFloat(ParseFloat literal)) or hex(literal)=! (ParseFloat fails)
+       number profile: hex(literal)=hex(FormatFloat(ParseFloat literal)) or hex(literal)=! (ParseFloat fails) — recomputed by
+       the model (modelCanon = FF.fmtF ∘ PF.parseFloat); the supplied pairs are only compared with it
        JSON cells: N | S<hex> | I<hex decimal text> | F<hex decimal text> | X (NaN/Inf) | B0 B1 | T0 T1 TU | D<hex>
    c02.jspell <ncols> <hdr…>                     column names as JSON paths: `spell` (no name is a prefix path of another, no
                                                  empty segment: the writers must carry them) | `refuse` (they must not write)
@@ -27,6 +28,7 @@
    carry the alignment `L|C|R` in front.  Answers: `E` (error) or hex of the UTF-8 bytes (enc);
    `E` or `T <ncols> <nrows> <detected line break> | h… | c… | c… …` (dec). -/
 import Csvq.Model.Proto
+import Csvq.Model.FormatFloat
 import Csvq.Model.Csv
 import Csvq.Model.Ltsv
 import Csvq.Model.Fixed
@@ -260,6 +262,11 @@ def parseJCell (s : String) : Option Json.JVal :=
     | 'D' => (unhexText rest).map .dt
     | _ => none
 
+/-- what csvq makes of a JSON number literal when it shows or writes it again: strconv.ParseFloat, then
+    strconv.FormatFloat(f, 'f', -1, 64); `none` when ParseFloat fails — by the model's own two functions -/
+def modelCanon (lit : List Char) : Option (List Char) :=
+  (PF.parseFloat (lit.map Char.toNat)).map fun f => (FF.fmtF f).map Char.ofNat
+
 /-- `<n> <lit=canon>…  rest…` → the profile as a function, and the rest -/
 def parseProfile (l : List String) : Option ((List Char → Option (List Char)) × List String) :=
   match l with
@@ -275,10 +282,11 @@ def parseProfile (l : List String) : Option ((List Char → Option (List Char)) 
             | some lit => if b = "!" then some (lit, none) else (unhexText b).map fun c => (lit, some c)
             | none => none
           | _ => none
-        pairs.map fun ps =>
-          (fun (lit : List Char) => match ps.find? (fun p => p.1 = lit) with
-            | some p => p.2
-            | none => some ('?' :: lit), rest.drop n)
+        -- the canon is decided by the model: strconv.ParseFloat (Model/ParseFloat.lean) then FormatFloat 'f'
+        -- (Model/FormatFloat.lean); what the Go side supplies for the literals it found is only compared with it,
+        -- and a difference rejects the line
+        pairs.bind fun ps =>
+          if ps.all (fun p => modelCanon p.1 == p.2) then some (modelCanon, rest.drop n) else none
     | none => none
   | [] => none
 
